@@ -17,8 +17,8 @@ def litDouble (t : Bytes) : String :=
   | none => "?"
 
 /-- what SCPI_ParamToDouble makes of a decimal token inside the expression: strtod from the token start (it reads on past
-the token like strtol does) -/
-def tokDouble (win : Bytes) (t : Token) : String := litDouble ((win.drop t.ptr).take (Prim.strtodLen win t.ptr))
+the token like strtol does); the text is the model's `Expr.tokDoubleText`, the one `Props.C19.numeric_entry_double` is about -/
+def tokDouble (win : Bytes) (t : Token) : String := litDouble (tokDoubleText win t)
 
 /-- X <hexbody> <index> <cap> => n… c… -/
 def runExpr (inp : List String) (obs : List String) : Option Verdict := do
